@@ -46,6 +46,35 @@ class Env:
         self.structs, self.enums = mir.parse_layouts(srcs)
         self.consts = mir.parse_consts(srcs)
 
+    def crate(self, pkg):
+        """MIR + layouts of another workspace crate (dumped on first use): an Env-like view"""
+        if not hasattr(self, "_crates"):
+            self._crates = {}
+        if pkg in self._crates:
+            return self._crates[pkg]
+        t0 = time.time()
+        env = dict(os.environ)
+        env["CARGO_NET_OFFLINE"] = "true"
+        lib = f"/repo/{pkg}/src/lib.rs"
+        os.utime(lib, None) if os.access(lib, os.W_OK) else None
+        cmd = ["cargo", "+nightly", "rustc", "-p", pkg, "--lib", "--offline", "--target-dir", os.path.join(BUILD, "mir", "target-" + pkg), "--", "-Zunpretty=mir", "-C", "overflow-checks=on", "-C", "debug-assertions=off"]
+        p = subprocess.run(cmd, cwd="/repo", env=env, stdout=subprocess.PIPE, stderr=subprocess.PIPE, text=True)
+        with open(self.log + "." + pkg, "w") as f:
+            f.write(p.stderr)
+        if p.returncode != 0 or len(p.stdout) < 1000:
+            raise RuntimeError(f"MIR dump of {pkg} failed (see {self.log}.{pkg})")
+        open(os.path.join(BUILD, "mir", pkg + ".mir"), "w").write(p.stdout)
+        sub = Env.__new__(Env)
+        sub.log = self.log
+        sub.fns = mir.parse_mir(p.stdout)
+        srcs = glob.glob(f"/repo/{pkg}/src/**/*.rs", recursive=True)
+        sub.structs, sub.enums = mir.parse_layouts(srcs)
+        sub.consts = mir.parse_consts(srcs)
+        sub.mir_s = round(time.time() - t0, 1)
+        self.mir_s = round(self.mir_s + sub.mir_s, 1)
+        self._crates[pkg] = sub
+        return sub
+
     def executor(self, inline=None, max_visits=3):
         return mir.Executor(self.fns, self.structs, self.enums, inline=inline, max_visits=max_visits, consts=self.consts)
 
